@@ -1,4 +1,5 @@
 """C15 (tetrahedral kernel) and C16 (hexahedral kernel): literal tables, compile-time witnesses, shape guards."""
+import re
 from itertools import permutations
 
 from .extract import AnalysisBroken
@@ -59,6 +60,27 @@ def closed_oriented(tuples):
 def perm_sign(p):
     inv = sum(1 for i in range(len(p)) for j in range(i + 1, len(p)) if p[i] > p[j])
     return 1 if inv % 2 == 0 else -1
+
+
+def list_source(f):
+    """the one local/parameter of type std::vector<VH> whose elements are picked by literal index in the braced
+    four-element lists of f (found by role, not by name)"""
+    cnt = {}
+    for b, i, x in f.nodes(("initlist", "ctor")):
+        items = x.get("a", [])
+        if len(items) != 4:
+            continue
+        for it in items:
+            it = unwrap(f.resolve(it))
+            while isinstance(it, dict) and it.get("k") == "ctor" and len(it.get("a", [])) == 1:
+                it = unwrap(it["a"][0])
+            if isinstance(it, dict) and it.get("k") == "idx" and unwrap(strip_casts(it["i"])).get("k") == "lit":
+                bse = unwrap(it["b"])
+                if isinstance(bse, dict) and bse.get("k") == "var" and "std::vector<OpenVolumeMesh::VH" in bse.get("t", ""):
+                    cnt[bse["n"]] = cnt.get(bse["n"], 0) + 1
+    if not cnt:
+        raise AnalysisBroken("%s: %s: no braced list indexing a vertex vector with literal indices - idiom changed, re-audit rule C15.perm" % (f.where, f.name))
+    return max(cnt, key=cnt.get)
 
 
 def init_lists(f, var_name):
@@ -145,9 +167,9 @@ def run_c15(ck, fb, fbd):
         ps = [p["t"] for p in f.d["params"]]
         if len(ps) != 2:
             continue
-        need_names(f, ["vhs"], None, "C15.perm")
+        src_v = list_source(f)
         halfedge_overload = "HEH" in ps[1]
-        for idxs, b, ln in init_lists(f, "vhs"):
+        for idxs, b, ln in init_lists(f, src_v):
             if not all(isinstance(v, int) for v in idxs):
                 continue
             n_lit += 1
@@ -163,7 +185,7 @@ def run_c15(ck, fb, fbd):
                 p = cmp_parts(c)
                 if p and p[0] == "==" and pol is True:
                     l = unwrap(strip_casts(p[1]))
-                    if isinstance(l, dict) and l.get("k") == "idx" and unwrap(l["b"]).get("n") == "vhs":
+                    if isinstance(l, dict) and l.get("k") == "idx" and unwrap(l["b"]).get("n") == src_v:
                         tested = unwrap(strip_casts(l["i"])).get("v")
             if tested is not None and not (halfedge_overload and idxs == (0, 1, 2, 3)):
                 first_ok = idxs[0] == tested or (halfedge_overload and idxs[1] == tested)
@@ -193,8 +215,7 @@ def run_c15(ck, fb, fbd):
         if not f:
             raise AnalysisBroken("anchor vanished: TetrahedralMeshTopologyKernel::" + name)
         f = f[0]
-        need_names(f, ["vertices"], None, "C15.perm")
-        lists = [ix for ix, b, ln in init_lists(f, "vertices")]
+        lists = [ix for ix, b, ln in init_lists(f, list_source(f))]
         pos = []
         good = True
         for ix in lists:
@@ -464,33 +485,34 @@ def run_c16(ck, fb, fbd):
         ck.note("orthogonal_orientation is not written as a table of (_o1 == A && _o2 == B) returns: the table laws are not evaluated, the compile-time witness C16.orient decides the function for all 49 argument pairs")
     # order tables
     arrays = {}
-    for h in [x for x in fb.by_cls.get(HEX, []) if x.has_cfg and x.name == "add_cell" and "HFH" in x.d["params"][0]["t"]]:
-        need_names(h, ["orderTop"], None, "C16.tables")
+    # the order tables are found by role: local arrays of four literal integers in add_cell / check_halfface_ordering
+    per_fn = {}
     for h in [x for x in fb.by_cls.get(HEX, []) if x.has_cfg and x.name in ("add_cell", "check_halfface_ordering")]:
         for b, i, d in h.nodes(("decl",)):
             for v in d["vars"]:
-                if v["n"] in ("orderTop", "orderBot") and v.get("init") is not None:
-                    vals = [unwrap(y).get("v") for y in unwrap(h.resolve(v["init"])).get("a", [])]
+                if v.get("init") is None or "[4]" not in v["t"]:
+                    continue
+                vals = [unwrap(strip_casts(y)).get("v") for y in unwrap(h.resolve(v["init"])).get("a", [])]
+                if len(vals) == 4 and all(isinstance(z, int) for z in vals):
+                    per_fn.setdefault(h.name, []).append(vals)
                     arrays.setdefault(v["n"], []).append((h.name, vals))
-    ok = len(arrays.get("orderTop", [])) >= 2 and all(v == [2, 4, 3, 5] for n, v in arrays.get("orderTop", [])) and all(v == [3, 4, 2, 5] for n, v in arrays.get("orderBot", [])) and arrays.get("orderBot")
-    (ck.ok if ok else lambda r, w, t: ck.violate(r, w, t, "C16.tables:order"))("C16.tables", HEX, "order tables %s" % arrays)
+    ok = len(per_fn) == 2 and all(sorted(v) == [[2, 4, 3, 5], [3, 4, 2, 5]] for v in per_fn.values())
     # check_halfface_ordering start offsets: ahfh == _hfs[k] -> offset j with orderTop[j] == k
     ch = [h for h in fb.by_cls.get(HEX, []) if h.name == "check_halfface_ordering" and h.has_cfg]
     if not ch:
         raise AnalysisBroken("anchor vanished: check_halfface_ordering")
     ch = ch[0]
-    need_names(ch, ["offsetTop", "offsetBot", "orderTop", "orderBot", "_hfs"], None, "C16.tables")
-    offs = {"offsetTop": {}, "offsetBot": {}}
+    from .canon import Canon
+    ccn = Canon(ch)
+    offs = {}
     for b, i, x in ch.tops():
         a = as_assign(x)
-        if a and estr(a[0]) in offs and unwrap(strip_casts(a[1])).get("k") == "lit":
+        if a and re.fullmatch(r"v\d+", ccn.s(a[0])) and unwrap(strip_casts(a[1])).get("k") == "lit":
             for c, pol, e in ch.facts(b):
-                p = cmp_parts(c)
-                if p and p[0] == "==" and pol is True and "_hfs[" in estr(p[2]):
-                    k = unwrap(strip_casts(unwrap(strip_casts(p[2]))["i"]))["v"] if isinstance(unwrap(strip_casts(p[2])), dict) and unwrap(strip_casts(p[2])).get("k") == "idx" else None
-                    if k is not None:
-                        offs[estr(a[0])][k] = unwrap(strip_casts(a[1]))["v"]
-    ok = offs["offsetTop"] == {2: 0, 4: 1, 3: 2, 5: 3} and offs["offsetBot"] == {3: 0, 4: 1, 2: 2, 5: 3}
+                m = re.fullmatch(r"\((.*) == P0\[(\d+)\]\)", ccn.s(c)) if pol is True else None
+                if m:
+                    offs.setdefault(ccn.s(a[0]), {})[int(m.group(2))] = unwrap(strip_casts(a[1]))["v"]
+    ok = sorted(offs.values(), key=lambda d_: sorted(d_.items())) == sorted([{2: 0, 4: 1, 3: 2, 5: 3}, {3: 0, 4: 1, 2: 2, 5: 3}], key=lambda d_: sorted(d_.items()))
     (ck.ok if ok else lambda r, w, t: ck.violate(r, w, t, "C16.tables:offsets"))("C16.tables", ch.where, "check_halfface_ordering start offsets agree with the order tables (%s)" % offs)
     # orientation-aware accessor in the walks
     for h in [x for x in fb.by_cls.get(HEX, []) if x.has_cfg and (x.name == "check_halfface_ordering" or (x.name == "add_cell" and "HFH" in x.d["params"][0]["t"]))]:
@@ -506,13 +528,17 @@ def run_c16(ck, fb, fbd):
     if not cs:
         raise AnalysisBroken("anchor vanished: CellSheetCellIter constructor")
     cs = cs[0]
-    need_names(cs, ["_orthDir"], None, "C16.tables")
+    scn = Canon(cs)
+    dirp = [k for k, p_ in enumerate(cs.d["params"]) if "char" in p_["t"]]
+    if len(dirp) != 1:
+        raise AnalysisBroken("CellSheetCellIter constructor: the direction parameter (unsigned char) is not unique")
+    D = "P%d" % dirp[0]
     pushes = [(b, x) for b, i, x in cs.nodes(("call",)) if x.get("pn", "").split("::")[-1] == "push_back"]
     ok = False
     for b, x in pushes:
-        at = {(estr(c), pol) for c, pol, e in cs.facts(b)}
-        ne1 = any("orientation(" in c and "!= _orthDir" in c and pol is True for c, pol in at)
-        ne2 = any("orientation(" in c and "!= " in c and "opposite_orientation(_orthDir)" in c and pol is True for c, pol in at)
+        at = {(scn.s(c), pol) for c, pol, e in cs.facts(b) if isinstance(pol, bool)}
+        ne1 = any("orientation(" in c and c.endswith("!= %s)" % D) and pol is True for c, pol in at)
+        ne2 = any("orientation(" in c and "!= " in c and "opposite_orientation(%s)" % D in c and pol is True for c, pol in at)
         ok = ne1 and ne2
     (ck.ok if ok else lambda r, w, t: ck.violate(r, w, t, "C16.tables:sheet"))("C16.tables", cs.where, "CellSheetCellIter collects neighbours across the four halffaces whose orientation is neither _orthDir nor its opposite")
     ck.rule("C11.valence", "hexahedral add_face/add_cell reach the base implementation only with 4/6 entries")
